@@ -22,7 +22,7 @@ ASSUMPTIONS = ['a result block is attributed to a target by its "(gen) target:" 
                'rank order internal error > connection error > failure > warning > good, as the README documents']
 
 FAIL_KINDS = ['unresolvable', 'refused', 'blackhole', 'silent', 'close_before_banner', 'close_after_banner', 'bad_block', 'bad_crc', 'trunc_kexinit', 'probe_garbage',
-              'vermismatch', 'stall_kexinit', 'reset_mid', 'badport', 'badport0', 'badport_nan', 'probe_resets', 'vermismatch_oneshot']
+              'vermismatch', 'stall_kexinit', 'reset_mid', 'badport', 'badport0', 'badport_nan', 'probe_resets', 'vermismatch_oneshot', 'slow_dns']
 HEALTHY = ['clean', 'terrapin_marked', 'rsa2048', 'gex2048', 'cbc_etm', 'rsa4096', 'ssh1']
 RANK = {0: 0, 2: 1, 3: 2, 1: 3, 255: 4}
 
@@ -32,6 +32,12 @@ def bad_target(rng, kind, i):
     t = {'kind': 'server', 'arch': kind, 'host': host, 'ip': '192.0.2.%d' % (100 + i), 'port': rng.choice([22, 2222])}
     if kind in ('unresolvable', 'refused', 'blackhole'):
         t['kind'] = kind
+        return t
+    if kind == 'slow_dns':
+        # the resolver needs longer than the tool's time-out (which bounds socket reads, not the C library's lookup) to answer for this
+        # name - with an error, or with the address of a host where nothing listens; the other targets' lookups are not its business
+        t['kind'] = rng.choice(['unresolvable', 'refused'])
+        t['dns_delay_us'] = rng.choice([2_500_000, 6_000_000, 30_000_000])
         return t
     if kind in ('badport', 'badport0', 'badport_nan'):
         # an entry whose port is outside 1-65535: must be rejected for that entry only
@@ -101,6 +107,7 @@ def cases(seed, tier):
     yield from long_cases(seed, tier)
     yield from lockstep_cases(seed, tier)
     yield from rate_cases(seed, tier)
+    yield from dns_cases(seed, tier)
 
 
 def lockstep_cases(seed, tier):
@@ -161,6 +168,24 @@ def rate_cases(seed, tier):
                'sched': gen.rand_sched(rng, preempt=False), 'net': {'rtt_us': 300_000}, 'pseed': rng.getrandbits(32), 'timeout': 2, 'rate_test': True}
 
 
+def dns_cases(seed, tier):
+    """One or two names whose resolution takes longer than the tool's time-out (answered late with an error, or with an address where
+    nothing listens) beside healthy targets, two or more workers: a lookup that is slow for one name must not cost the targets whose
+    own lookups are answered at once (every connection of an audit resolves the name again, so a healthy target makes a dozen lookups
+    while the slow one is pending)."""
+    for j in range(30 if tier == 'quick' else 400):
+        rng = gen.case_rng(seed, ID, 'dns', j)
+        k = rng.choice([2, 3, 4])
+        nslow = 1 if k == 2 else rng.choice([1, 1, 2])
+        kinds = ['slow_dns'] * nslow + ['ok'] * (k - nslow)
+        if rng.random() < 0.5:
+            rng.shuffle(kinds)
+        targets = [bad_target(rng, 'slow_dns', i) if kd == 'slow_dns' else make_target(rng, rng.choice(HEALTHY), i) for i, kd in enumerate(kinds)]
+        mode = rng.choice(['text', 'json'])
+        yield {'targets': targets, 'mode': mode, 'opts': ['-n'] if mode == 'text' else ['-j'], 'threads': rng.choice([2, k, 32]), 'sched': gen.rand_sched(rng, preempt=False),
+               'net': {'rtt_us': rng.choice([100, 3000])}, 'pseed': rng.getrandbits(32), 'timeout': rng.choice([1, 2])}
+
+
 def long_cases(seed, tier):
     """A run that simply takes long: a dozen or more silent targets handled by one worker, then a healthy one."""
     for j in range(2 if tier == 'quick' else 8):
@@ -218,6 +243,14 @@ def run_case(case, ctx):
             out.append(viol('C08 json: top-level value is not an array', ctx_txt))
         elif len(doc) != n:
             out.append(viol('C08 json: array has %s elements for %d targets' % ('fewer' if len(doc) < n else 'more', n), '%s\nlen=%d' % (ctx_txt, len(doc))))
+        else:
+            # every target whose own audit succeeds must find its report (not an error object) among the elements
+            for i, t in enumerate(targets):
+                if sts[i] in (0, 2, 3) and t['kind'] == 'server':
+                    mine = [d for d in doc if isinstance(d, dict) and multi.json_target(d, targets) == i]
+                    if not any(isinstance(d.get('kex'), list) or isinstance(d.get('key'), list) for d in mine):
+                        out.append(viol('C08 json: the report of a healthy target is missing', '%s\ntarget %d (%s): elements for it: %s' % (ctx_txt, i, archs[i], json.dumps(mine)[:400])))
+                        break
     else:
         blocks = multi.split_text_blocks(mrec['stdout'])
         blocks = [b for b in blocks if multi.norm_block(b).strip()]
